@@ -22,13 +22,20 @@ func init() {
 			"and (thorough) for sampled pairs of positions. After each run: the authority reloaded as a fresh process must name a primary key that is live, has a stored certificate for that key verifying under the stored root, and signs verifiably; the call log must not show DestroyKeyVersion(old) before the event that records the new primary (manifest write / CA finalize); a following fault-free rotation with overwrite must succeed and leave a healthy authority. " +
 			"non-trivial = fault positions that were actually reached (the run's log shows the injected fault); distinct = (assembly, call name at the position, fault kind, outcome class). " +
 			"Appended families (cases >= 1000000, same rules): X1 one fault per call position of the trace (now with the object writer's open and data write as positions of their own) with the FAULTED rotation run under every combination of --overwrite/--keep_going, the injected error drawn from error classes (plain, gRPC status codes, context errors, os sentinels), the serial override unset / 0 / explicit, from two pre-states (after one rotation; right after bootstrap); " +
-			"X2 outages: a burst of 2..3 or every later call of one component fails from a position on, or the command's live context is cancelled / expires at that position; X3 pairs of faults across attempts: a faulted rotation, then a second rotation over its leftovers that is faulted too (every flag combination, same or default serial), then the recovery rotation with --overwrite, with and without --keep_going; distinct = (family, assembly, pre-state, first faulted call, fault kind, error class, flags, outcome)",
+			"X2 outages: a burst of 2..3 or every later call of one component fails from a position on, or the command's live context is cancelled / expires at that position; X3 pairs of faults across attempts: a faulted rotation, then a second rotation over its leftovers that is faulted too (every flag combination, same or default serial), then the recovery rotation with --overwrite, with and without --keep_going; " +
+			"X4 (cases >= 2000000) ambiguous failures: each call of the rotation that changes something (key creation, signing, certificate object write, manifest write, CA finalize, old-key destruction) takes effect and THEN reports an error of a drawn class, the process living on, under the flag combinations and serial modes from both pre-states; " +
+			"X5 rotations failing by refusal: the authority already holds a certificate under the key version name the new key gets (a spare certified through the authority's mutation interface with its own or with the rotation's subject; an earlier generation's certificate after bootstrap --overwrite), rotation run fault-free under every flag combination and with single faults of the four kinds at drawn call kinds; " +
+			"X6 a crash between the open and the commit of the NEW certificate object's writer while the store writes a not-yet-existing object through as the calls arrive; " +
+			"distinct = (family, assembly, pre-state, first faulted call, fault kind, error class, flags, outcome)",
 		Assumptions: []string{"crashes happen at call boundaries of the repository's own interfaces (object granularity), not inside a write",
 			"for in-memory components a crash means the operation was cut short while the process state survives",
 			"gcpkms is exercised against the KMS model by C20; here the four nonprod managers/authorities (and gcsca over memory and disk) are used",
 			"error classes that read as an answer at a query (NotFound / AlreadyExists / os.ErrNotExist / os.ErrExist) are injected only at calls that change something",
 			"not judged (counted, see judgeAmbiguousManifestWrite): on storage/local an error injected at the Close of the key-manifest writer leaves the written manifest in place; the retry of a process that kept its authority value after that is counted only",
-			"not judged (counted, see judgeSharedCertObject): a rotation with --overwrite whose serial override equals the recorded primary's own subject serial, i.e. whose certificate object IS the recorded primary's certificate object"},
+			"not judged (counted, see judgeSharedCertObject): a rotation with --overwrite whose serial override equals the recorded primary's own subject serial, i.e. whose certificate object IS the recorded primary's certificate object",
+			"an applied-but-failed call (X4) is produced only at calls whose effect the component applies in one piece; the component's state after it is that of a successful call",
+			"X6 writes through only objects that do not exist at the writer's open; an existing object (manifest, root, a replaced certificate) is always replaced as a whole",
+			"not judged (counted): whether a rotation WITHOUT --overwrite over an occupied name is refused or goes through (X5) - only the state it leaves is judged; a pre-state that cannot be set up is counted, not judged"},
 		ShardsQuick: 10, ShardsThor: 16, TimeoutS: 1800, TimeoutThor: 7200, Exhaustive: true, Run: run,
 	})
 }
@@ -39,7 +46,7 @@ var kinds = []string{doubles.FaultError, doubles.FaultCrashBefore, doubles.Fault
 func orderViolation(log []doubles.Call, ca string) string {
 	recorded := false
 	for _, c := range log {
-		effective := c.Result == "ok" || c.Result == "crash-after"
+		effective := c.Result == "ok" || c.Result == "crash-after" || c.Result == faultErrorAfter
 		if !effective {
 			continue
 		}
@@ -85,6 +92,7 @@ func run(c *core.Ctx) {
 	t0 := time.Date(2025, 1, 1, 0, 0, 0, 0, time.UTC)
 	reached := 0
 	xst := newExtStats()
+	yst := &ext2Stats{}
 	// every storage-backed authority is also exercised as ONE long-lived value kept across the failed rotation,
 	// the probe and the recovery rotation (a service using the library), not only reloaded per command like the CLI
 	type asm struct {
@@ -300,8 +308,11 @@ func run(c *core.Ctx) {
 		// appended families (case numbers >= extBase): flags, error classes, outages, context end, pairs across attempts
 		a.LongLived = false
 		extended(c, ai, a, aname, p0.long, snapBoot, snap, t0, xst)
+		// appended families (case numbers >= ext2Base): applied-but-failed calls, refusals over occupied names
+		extended2(c, ai, a, aname, p0.long, snapBoot, snap, t0, yst)
 		os.RemoveAll(dir)
 	}
 	c.Floor("some-fault-position-reached", reached > 0)
 	xst.floors(c)
+	yst.floors(c)
 }
